@@ -9,6 +9,8 @@ package interp
 // function of its decision list.
 
 import (
+	"os"
+	"runtime/debug"
 	"fmt"
 	"go/types"
 	"sync"
@@ -37,6 +39,7 @@ type sched struct {
 	schedChoice bool // select / wakeup order are choice points
 	files       map[*value]*memFile
 	fileOrder   []*value
+	hashes      []hashCall
 }
 
 type wgState struct{ n int }
@@ -44,6 +47,8 @@ type muState struct {
 	locked  bool
 	readers int
 }
+
+var traceStack = os.Getenv("GS_STACK") != ""
 
 type killed struct{}
 type deadlock struct{ desc string }
@@ -135,6 +140,9 @@ func (i *interpreter) spawn(fn value, args []value) {
 			}
 			if r != nil && sc.fatal == nil {
 				sc.fatal = r
+				if traceStack {
+					fmt.Fprintf(os.Stderr, "goroutine %d ended with %v\n%s\n", g.id, r, debug.Stack())
+				}
 			}
 			if sc.dead {
 				return
